@@ -296,7 +296,7 @@ class Sem:
 
     NEG = {"Eq": "Ne", "Ne": "Eq", "Lt": "Ge", "Ge": "Lt", "Gt": "Le", "Le": "Gt"}
 
-    def _norm_bool(self, x, truth):
+    def _norm_bool(self, x, truth, depth=0):
         if x.op == "bin" and x.info in self.NEG:
             op = x.info if truth else self.NEG[x.info]
             a, b = x.args
@@ -308,6 +308,18 @@ class Sem:
             return ("cmp", op, a, b)
         if x.op == "call" and x.info == "std::option::Option::is_none":
             return ("truth", E("call", x.args, "std::option::Option::is_some"), not truth)
+        if x.op == "call" and depth < 4:
+            # a workspace predicate helper (pure fn returning the comparison itself): the fact is the helper's own comparison
+            # over the call's arguments
+            b = self.w.callee_body(x)
+            if b is not None and b.is_fn() and b.local_tys[0] == "bool" and self.w.is_pure(b):
+                r = self.w.ident(self.w.expand(x), expand_ws=False)
+                neg = False
+                while r.op == "un" and r.info == "Not":
+                    neg = not neg
+                    r = self.w.ident(r.args[0], expand_ws=False)
+                if r.op == "bin" and r.info in self.NEG:
+                    return self._norm_bool(r, truth != neg, depth + 1)
         return ("truth", x, truth)
 
     # ------------------------------------------------------------------ A9 abstract values
